@@ -34,7 +34,7 @@ type stamped struct {
 // Record runs one concurrent history on a fresh object: `prefix` sequential adds, then G goroutines with their own
 // operation lists, released together.  Invocation is stamped before the call and response after it with one global
 // atomic counter, so every recorded interval contains the real one: any real linearisation remains admissible.
-func Record(g *Group, truth []byte, id string, seed int64, goroutines, opsPer int, chaos func()) History {
+func Record(g *Group, truth []byte, id string, seed int64, goroutines, opsPer int, chaos func(), boundary bool) History {
 	rng := rand.New(rand.NewSource(seed))
 	h := History{ID: id, Violations: []Violation{}}
 	o, err := NewObject(g, seed%2 == 1)
@@ -105,18 +105,40 @@ func Record(g *Group, truth []byte, id string, seed int64, goroutines, opsPer in
 	}
 	// sequential prefix: bring the object near the t+1 boundary
 	pre := rng.Intn(g.T + 1)
+	if boundary {
+		pre = rng.Intn(2) * rng.Intn(g.T+1) // mostly a fresh object
+	}
 	perm := rng.Perm(g.N)
 	for k := 0; k < pre; k++ {
 		do(0, Op{"TrustedAdd", perm[k], "v"}, rng)
 	}
 	var wg sync.WaitGroup
 	start := make(chan struct{})
+	if boundary {
+		// exactly the adds that cross the t+1 boundary, one per goroutine, distinct signers, all valid: in every sequential
+		// order the adds report enough = false until the (t+1)-th share is in, then true
+		goroutines = g.T + 1 - pre + rng.Intn(3)
+		if goroutines > g.N-pre {
+			goroutines = g.N - pre
+		}
+		opsPer = 1
+	}
 	for gi := 1; gi <= goroutines; gi++ {
 		wg.Add(1)
 		r := rand.New(rand.NewSource(seed*131 + int64(gi)))
 		var opsList []Op
 		for k := 0; k < opsPer; k++ {
 			opsList = append(opsList, randOp(r))
+		}
+		if boundary {
+			name := "TrustedAdd"
+			if r.Intn(3) == 0 {
+				name = "VerifyAndAdd"
+			}
+			opsList = []Op{{name, perm[pre+gi-1], "v"}}
+			if r.Intn(4) == 0 {
+				opsList = append(opsList, Op{"EnoughShares", 0, "-"})
+			}
 		}
 		go func(gid int, r *rand.Rand, opsList []Op) {
 			defer wg.Done()
